@@ -42,12 +42,24 @@ def run(ctx):
     shutil.rmtree(out, ignore_errors=True)
     os.makedirs(out)
     runs = []
+    crashed = False
     for sched in (["pct"] if ctx.tier == "quick" else ["pct", "random"]):
         d = os.path.join(out, "sh-" + sched)
         os.makedirs(d)
         rc, lg = common.sh([os.path.join(rel_sh, "proto_harness"), "--out", d, "--iters", str(iters),
                             "--seed", str(ctx.seed), "--scheduler", sched], timeout=3000)
         if rc != 0:
+            if "panicked" in lg or "shuttle::replay" in lg or "deadlock" in lg.lower() or rc < 0:
+                # the workload died under a shuttle-controlled schedule (a panic inside salsa, a
+                # deadlock or step-bound hit reported by shuttle): that is a concrete failing
+                # schedule of the implementation, not a broken check
+                crash = dict(kind="the protocol workload failed under a shuttle-controlled schedule (panic inside salsa / deadlock / "
+                                  "step bound): a waiting thread was not woken correctly or a wait closed a cycle",
+                             scheduler=sched, harness_seed=ctx.seed, iters=iters, exit_status=rc, output_tail=lg[-2500:],
+                             how_to_replay=f"{os.path.join(rel_sh, 'proto_harness')} --out <dir> --iters {iters} --seed {ctx.seed} --scheduler {sched}")
+                ctx.violation(crash)
+                crashed = True
+                continue
             raise common.CheckError("proto_harness (shuttle) failed:\n" + lg[-3000:])
         runs.append(d)
     # OS-thread build: panicking / cancellation workloads (shuttle treats unwinding as failure)
@@ -62,8 +74,21 @@ def run(ctx):
     rc, lg = common.sh([os.path.join(tdir, "release", "proto_harness"), "--out", d,
                         "--iters", str(max(10, iters // 4)), "--seed", str(ctx.seed)], timeout=3000)
     if rc != 0:
-        raise common.CheckError("proto_harness (std threads) failed:\n" + lg[-3000:])
-    runs.append(d)
+        if "panicked" in lg or rc < 0:
+            ctx.violation(dict(kind="the protocol workload on OS threads died with a panic (an assertion inside salsa fired / a "
+                                    "waiter was not woken): concrete failing run", harness_seed=ctx.seed, exit_status=rc,
+                               output_tail=lg[-2500:]))
+            crashed = True
+        else:
+            raise common.CheckError("proto_harness (std threads) failed:\n" + lg[-3000:])
+    else:
+        runs.append(d)
+    if not runs:
+        ctx.coverage.update({"obligations": rep["obligations"] if rep else 0, "discharged": rep["discharged"] if rep else 0,
+                             "checker_cmd": "make -C coq Props/C19.vo", "trusted_base": common.TRUSTED_BASE_COMMON,
+                             "note": "every workload run died under its schedule; nothing could be replayed"})
+        ctx.write_evidence("proof")
+        return
     rc, lg = common.sh([os.path.join(common.BUILD, "ocaml-proto", "replay")] + runs, timeout=3000)
     m = re.search(r"TOTAL files=(\d+) ok=(\d+) mismatch=(\d+) steps=(\d+)", lg)
     if not m:
